@@ -316,6 +316,7 @@ pub fn c07_worlds(tier: Tier) -> Vec<WorldSpec> {
         Op::Filter(Pred::Gt1),
         Op::Scan(0),
         Op::Scan(7),
+        Op::Scan(2),
     ];
     let maxn = if q(tier) { 3 } else { 4 };
     for n in 1..=maxn {
